@@ -596,7 +596,7 @@ static int st_apply(uint32_t op, int audit)
         vrt_state(Mn[l1] == 0 ? "empty" : "nonempty");
         VRT_OP2("dlist.clear", "l%ld (len %ld)", l1, Mn[l1]);
         clear_list = l1; clear_seen = 0;
-        cstl_dlist_clear(&L[l1], clear_cb);
+        if (vrt_case_tick() & 1) cstl_dlist_clear(&L[l1], clear_cb); else VRT_NOMEM(cstl_dlist_clear(&L[l1], clear_cb));     /* clear has no way to fail: also with an allocator that refuses everything */
         VRT_CHECK(clear_seen == Mn[l1], "dlist.clear.count", "clear handed over %d of %d elements", clear_seen, Mn[l1]);
         if (Mn[l1]) VRT_COUNT("op.clear.nonempty");
         Mn[l1] = 0;
